@@ -104,6 +104,20 @@ def op_variant(m, sg, op):
         v = np.frombuffer(np.asarray(m.buffers[t.buffer].data, dtype=np.uint8).tobytes(), dtype=dt)
         if v.size and int(np.max(np.abs(v.astype(np.float64)))) >= np.iinfo(dt).max - 1:
             var.append("bias-saturated")
+    if "bias-saturated" not in var and name in ("CONV_2D", "DEPTHWISE_CONV_2D", "TRANSPOSE_CONV", "FULLY_CONNECTED"):
+        # the kernel's fixed-point output multiplier input_scale*weight_scale/output_scale: TFLite's QuantizeMultiplier flushes a
+        # multiplier below 2^-32 to ZERO (shift < -31), so the channel's output is the zero point whatever the accumulator holds
+        x = ins[2] if name == "TRANSPOSE_CONV" and len(ins) > 2 else ins[0]
+        w = ins[1] if len(ins) > 1 else None
+        y = sg.tensors[op.outputs[0]] if len(op.outputs) else None
+
+        def sc(t):
+            qz = None if t is None else t.quantization
+            return None if qz is None or qz.scale is None or not len(qz.scale) else np.asarray(qz.scale, dtype=np.float64)
+        sx, sw, sy = sc(x), sc(w), sc(y)
+        if sx is not None and sw is not None and sy is not None and x.type in (TT.INT8, TT.INT16) and np.all(sy > 0):
+            if float(np.min(sx[0] * sw / sy[0])) < 2.0 ** -32:
+                var.append("multiplier-underflow")
     return name + (":" + ",".join(var) if var else "")
 
 
@@ -162,7 +176,9 @@ def localise(interp, mb_q, mb_ref, data, tol, ctx=None, constant=False):
                 cls = op_variant(mq, sg, op)
                 if first_any is None:
                     first_any = cls
-                ins = [pl.tname(sg.tensors[i]) for i in op.inputs if i != -1]
+                # a deviating CONSTANT operand (a clipped bias, a badly stored weight) is this operator's own call site, not an
+                # upstream deviation: only runtime operands exonerate the operator
+                ins = [pl.tname(sg.tensors[i]) for i in op.inputs if i != -1 and mq.buffers[sg.tensors[i].buffer].data is None]
                 # operands produced through inserted ops carry derived names; compare what has a counterpart
                 if not any(bad(n) for n in ins):
                     return cls
